@@ -3875,7 +3875,14 @@ class CaseNode(Node):
                         j.attach(*self.case_match_actions[true_backref], prepend=True)
             else:
                 refers_to = sub_dfas[original_backreference[i]]
-                decider_dfa.append_after(refers_to, sub_states=corresponding_finish_states[i], chain_actions=self.case_match_actions[original_backreference[i]])
+                clause_actions = self.case_match_actions[original_backreference[i]]
+                can_continue = any(not x.error_handling for finish in corresponding_finish_states[i] for x in finish.transitions)
+                if not can_continue and any(self._action_reads_last_char(x) for x in clause_actions):
+                    # $last is the last character of the predicate only while that character is being consumed; chained onto
+                    # the transitions of what follows, the actions would see the first character of the next match instead.
+                    decider_dfa.chain_actions_into(clause_actions, corresponding_finish_states[i])
+                    clause_actions = []
+                decider_dfa.append_after(refers_to, sub_states=corresponding_finish_states[i], chain_actions=clause_actions)
 
         ProgramData.imbue(decider_dfa, DTAG.PARENT, self)
 
@@ -3883,6 +3890,20 @@ class CaseNode(Node):
             decider_dfa.append_after(self.next.convert(current_error_handlers))
         
         return decider_dfa
+
+    @staticmethod
+    def _action_reads_last_char(action: Action):
+        for sub in action.all_subactions():
+            exprs = []
+            if isinstance(sub, SetTo):
+                exprs.append(sub.value_expr)
+            elif isinstance(sub, AppendCharTo):
+                exprs.append(sub.append_value)
+            elif isinstance(sub, ConditionalAction):
+                exprs.extend(x.expr for x in sub.conditions if isinstance(x, IntegerCondition))
+            if any(isinstance(child, LastCharIntegerExpr) for expr in exprs for child in expr.all_children()):
+                return True
+        return False
 
 class OptionalNode(ActionSinkNode):
     def __init__(self, sub_contents: Node):
